@@ -407,7 +407,11 @@ func (r *realm) onLeave(sess *wamp.Session, shutdown, killAll bool) {
 // HandleSession starts a session attached to this realm.
 //
 // Routing occurs only between WAMP Sessions that have joined the same Realm.
-func (r *realm) handleSession(sess *wamp.Session) error {
+//
+// The WELCOME message is sent by the session's message handler as its first
+// action: the handler is the only goroutine that closes the session's peer, so
+// this cannot be a send on a closed peer, whatever ends the session meanwhile.
+func (r *realm) handleSession(sess *wamp.Session, welcome *wamp.Welcome) error {
 	// The lock is held in mutual exclusion with the closing of the realm. This
 	// ensures that no new session handler can start once the realm is closing,
 	// during which the realm waits for all existing session handlers to exit.
@@ -429,6 +433,10 @@ func (r *realm) handleSession(sess *wamp.Session) error {
 		r.log.Println("Handling messages for session", sess)
 	}
 	go func() {
+		select {
+		case sess.Send() <- welcome:
+		default:
+		}
 		shutdown, killAll, err := r.handleInboundMessages(sess)
 		if err != nil {
 			abortMsg := wamp.Abort{
